@@ -460,6 +460,16 @@ func (g *Gen) genDeposit() Op {
 		}
 		g.stats["deposit_under_grant"]++
 	}
+	if dep < 0 && g.chance(0.03) {
+		// exactly the whole spendable balance of the depositor (the boundary of "can pay it"); one token more must be refused
+		if b := g.c.Bal(g.c.Acc[signer].Addr); b.IsInt64() && b.Int64() >= g.c.Cfg.House.MinDeposit.Int64() {
+			amt = b.Int64()
+			if g.chance(0.3) {
+				amt++
+			}
+			g.stats["deposit_whole_balance"]++
+		}
+	}
 	return Op{Kind: "DEP", Signer: signer, Tk: g.ticket(), Mkt: m.uid, Amount: bi(amt), Ky: ky, Depositor: dep}
 }
 
@@ -694,6 +704,16 @@ func (g *Gen) genWager() Op {
 		if a, ok := g.spanAmount(m, sel, ov, mu); ok {
 			amt = a
 			g.stats["wager_span"]++
+		}
+	}
+	if g.chance(0.025) {
+		// exactly the whole spendable balance of the bettor (the boundary of "the bettor can pay it"); one token more must be refused
+		if b := g.c.Bal(g.c.Acc[signer].Addr); b.IsInt64() && b.Int64() >= g.c.Cfg.Bet.Constraints.MinAmount.Int64() {
+			amt = b.Int64()
+			if g.chance(0.3) {
+				amt++
+			}
+			g.stats["wager_whole_balance"]++
 		}
 	}
 	if g.chance(0.03) {
